@@ -85,3 +85,24 @@ def run(ctx: Ctx):
             continue
         ctx.check(c.kind == "enum" and "_missing_" not in c.methods, "enum-is-closed-class", f"enum={en}",
                   f"{en} defines _missing_ or is not an enum.Enum: non-members may be accepted", P_TYPES, c.lineno)
+
+
+_run_c11 = run
+
+
+def run(ctx: Ctx):  # noqa: F811
+    _run_c11(ctx)
+    # the range validators themselves (edit 2: "a number outside its range"): their accept set, decided by the
+    # comparison-partition analysis of C12, restated here for the out-of-range direction
+    from ..common import Ctx as _Ctx
+    from . import c12
+    sub = _Ctx("C11", ctx.tier, ctx.seed, ctx.src, quiet=True)
+    c12._run_validators(sub)
+    n = 0
+    for f in sub.findings:
+        if f.rule in ("reject-out-of-range", "accept-in-range", "total-on-any-argument"):
+            ctx.fail("int-range-enforced", f.construct, f.message, f.file, f.line)
+    n = sub.rule_counts.get("reject-out-of-range", 0)
+    ctx.floor("out-of-range representatives checked", n, 20)
+    for _ in range(n - sum(1 for f in sub.findings if f.rule == "reject-out-of-range")):
+        ctx.ok("int-range-enforced")
